@@ -14,10 +14,11 @@ def main():
         m = json.load(open(f))
         change = " ".join(m.get("change", "").split()).replace("|", "/")[:100]
         by = m.get("caught_by", m.get("why", "")).replace("|", "/")[:150]
-        rows.append("| %s | %s | %s | %s |" % (m["id"], change, m.get("result", "?"), by))
+        rows.append("| %s | %s | %s | %s | %s |" % (m["id"], change, m.get("result", "?"), by,
+                                                   m.get("repo_head", "?")))
     p = os.path.join(VERIF, "DESIGN.md")
     s = open(p).read()
-    head = "| id | change | result | caught by (first signatures) |\n|---|---|---|---|\n"
+    head = "| id | change | result | caught by (first signatures) | /repo at |\n|---|---|---|---|---|\n"
     i = s.index(head) + len(head)
     j = s.index("\n\n", i)
     s = s[:i] + "\n".join(rows) + s[j:]
